@@ -64,11 +64,52 @@ TRUSTED = ['z3 quantifier instantiation']
 def tasks(tier):
     return ['align', 'remove', 'tagged', 'extend', 'extract', 'props', 'add',
             'append', 'addprop', 'walkers', 'pickle', 'misc', 'arrtypes',
-            'canary']
+            'canary', 'walk']
 
 
 def mod(repo):
     return repo.cython_module(PYX)
+
+
+def task_walk(ctx):
+    """BOUNDED stand-in, never counted as proved: random sequences of public
+    calls on the extensions built from the working tree, side by side with
+    the property's record-list model (contracts/c06_model_walk.py).  The
+    per-method contracts above say what each call does to the columns; that
+    every interleaving of them keeps the records together is the composition
+    the generator does not reach, and a contract written from the code can
+    encode a defect of the code."""
+    import os
+    if os.environ.get('PYVC_NO_BUILD_REPLAY'):
+        ctx.note('model walk skipped: PYVC_NO_BUILD_REPLAY set (development)')
+        return
+    thorough = ctx.tier == 'thorough'
+    seeds = list(range(3000 if thorough else 150))
+    steps = 150 if thorough else 80
+    dst, msg = native.shared_build()
+    if dst is None:
+        raise RuntimeError('extensions could not be built: %s' % msg)
+    src = open(os.path.join(os.path.dirname(os.path.abspath(__file__)),
+                            'c06_model_walk.py')).read()
+    r = native.run_venv(src, dict(built=dst, seeds=seeds, steps=steps),
+                        timeout=3000, cwd='/tmp')
+    bound = ('%d random call sequences of up to %d calls (add_particles, '
+             'remove_particles, remove_tagged_particles, extract_particles, '
+             'append_parray of an array with another property set, '
+             'add/remove_property, add_constant, resize, set_tag, '
+             'align_particles, empty_clone, pickle, extend, copy_properties, '
+             'copy_over_properties, set_to_zero, ensure_properties, set) on '
+             'arrays with double/float/int/long/unsigned and strided '
+             'properties, mixed tags and zero particles; after every call '
+             'all records, lengths, types, strides, constants and (after '
+             'aligning calls) the Local-first order compared with the '
+             'record-list model' % (len(seeds), steps))
+    if r['bad']:
+        ctx.bounded_check('walk.' + str(r['bad'].get('call'))[:60], bound, 1,
+                          False, r['bad'])
+    else:
+        ctx.bounded_check('walk.record_list_model', bound, r['cases'], True,
+                          'calls checked against the model')
 
 
 class Carr(object):
@@ -137,6 +178,8 @@ def run_task(task, ctx):
         return task_addprop(ctx, repo, m)
     if task == 'walkers':
         return task_walkers(ctx, repo, m)
+    if task == 'walk':
+        return task_walk(ctx)
     if task == 'pickle':
         return task_pickle(ctx, repo, m)
     if task == 'misc':
@@ -1336,6 +1379,34 @@ def task_misc(ctx, repo, m):
     except VCError as e:
         ctx.outside('misc.set_pid', str(e))
 
+    # ---- clear: back to the three built-in properties, empty, with their
+    # defaults -- the tag default is the array's default_particle_tag
+    fn = M['clear']
+    tagdef = z3.Int('default_particle_tag')
+    obj = pa_self({'x': carr_obj('x')}, {}, n, dict(
+        default_values={'x': 1, 'tag': tagdef, 'pid': 5, 'gid': 7}))
+    ex = executor(repo, m, 'clear')
+    ex.spec_env['IntArray'] = Native(lambda e, s_, a, k_, nn: ('IntArray',
+                                                               a[0]))
+    ex.spec_env['UIntArray'] = Native(lambda e, s_, a, k_, nn: ('UIntArray',
+                                                                a[0]))
+    ex.spec_env['_UINT_MAX'] = ('UINT_MAX',)
+    try:
+        outs = ex.exec_function(fn, dict(self=obj), State(pc=[]))
+        ok = len(outs) == 1
+        if ok:
+            at = outs[0].state.env['self'].attrs
+            dv = at['default_values']
+            ok = at['properties'] == {'tag': ('IntArray', 0),
+                                      'pid': ('IntArray', 0),
+                                      'gid': ('UIntArray', 0)} and \
+                sorted(dv) == ['gid', 'pid', 'tag'] and \
+                S.same(dv['tag'], tagdef) and dv['pid'] == 0 and \
+                dv['gid'] == ('UINT_MAX',)
+        obs.append(Obligation('clear.keeps_the_default_particle_tag', [],
+                              z3.BoolVal(bool(ok)), W))
+    except VCError as e:
+        ctx.outside('misc.clear', str(e))
     # ---- cloning: empty_clone, ensure_properties
     def typed_props(names, prefix=''):
         out = {}
